@@ -289,6 +289,31 @@ func verifLemmaMaxBodyTight(c *channelInstance, m *Message, chunkSize int, chunk
 //@   loop 0 invariant fresh(s.instances[cid]) && arr(s.instances[cid]) != arr(oldInstances)
 //@   loop 0 invariant held(&s.instancesMu) && released(&s.instancesMu) == rel0
 
+// frame of SetMaximumBodySize for any algorithm (the main contract above is the C38 formula)
+//@ func (*channelInstance).SetMaximumBodySize@frame
+//@   props C17
+//@   frame_only
+//@   requires c != nil && c.algo != nil
+//@   assigns c.maxBodySize
+
+// The token a client stores after OpenSecureChannel is registered under the channel id the server
+// assigned -- the key the expiry above uses. (That its lifetime is the smaller of the revised and the
+// requested one, in milliseconds, is NOT stated: the code compares through a 64-bit multiplication and
+// division by 10^6, which none of the installed solvers decides within minutes.)
+//@ func (*SecureChannel).handleOpenSecureChannelResponse
+//@   props C17
+//@   frame_only
+//@   bytes
+//@   use (*channelInstance).SetMaximumBodySize@frame
+//@   requires s != nil && s.cfg != nil && s.c != nil && s.instances != nil && instance != nil && resp != nil && resp.SecurityToken != nil
+//@   requires s.openingInstance == instance
+//@   let cid = resp.SecurityToken.ChannelID
+//@   assigns *
+//@   ensures [C17:token-ids] err == nil ==> instance.secureChannelID == cid && instance.securityTokenID == resp.SecurityToken.TokenID
+//@   ensures [C17:registered] err == nil ==> len(s.instances[cid]) >= 1 &&
+//@           at(s.instances[cid], off(s.instances[cid]) + len(s.instances[cid]) - 1) == instance
+//@   canary ensures [C17:canary-token-zero] err == nil ==> instance.securityTokenID == 0
+
 // ---------------------------------------------------------------------------
 // C12: reassembly of chunk streams
 // ---------------------------------------------------------------------------
